@@ -73,6 +73,12 @@ M = [
     ('C19', 'get-key-without-space-stripping', 'pgpy/pgp.py', "            if alias.replace(' ', '') in m:\n                return self._keys[m[alias.replace(' ', '')]]", "            pass"),
     ('C19', 'EQUIVALENT-unload-skips-resort', 'pgpy/pgp.py', "                if a in self:\n                    self._sort_alias(a)", "                pass"),
     ('C19', 'fingerprints-ignores-subkeys', 'pgpy/pgp.py', "        return {pk.fingerprint for pk in self._keys.values()\n                if pk.is_primary in", "        return {pk.fingerprint for pk in self._keys.values() if pk.is_primary\n                if pk.is_primary in"),
+    ('C14', 'sigs-after-subkey-attach-to-previous-uid', 'pgpy/pgp.py', "                    if pkt.header.tag != PacketTag.Signature:\n                        self.last", "                    if pkt.header.tag not in (PacketTag.Signature, PacketTag.PublicSubKey, PacketTag.SecretSubKey):\n                        self.last"),
+    ('C14', 'exportable-filter-inverted-for-uid-sigs', 'pgpy/pgp.py', "            for s in [s for s in uid._signatures if s.exportable]:", "            for s in [s for s in uid._signatures if not s.exportable or s.signer == self.fingerprint.keyid]:"),
+    ('C14', 'copy-skips-direct-signatures', 'pgpy/pgp.py', "            if sig.embedded:\n                # embedded signatures don't need to be explicitly copied\n                continue\n", "            if sig.embedded or sig.type == SignatureType.DirectlyOnKey:\n                continue\n"),
+    ('C14', 'insort-replaces-equal', 'pgpy/types.py', "        i = bisect.bisect_right(self, item)\n        self.rotate(- i)\n        self.appendleft(item)", "        i = bisect.bisect_right(self, item)\n        if i and not (self[i - 1] < item):\n            self[i - 1] = item\n            return\n        self.rotate(- i)\n        self.appendleft(item)"),
+    ('C14', 'insort-bisect-left-back', 'pgpy/types.py', "        i = bisect.bisect_right(self, item)", "        i = bisect.bisect_left(self, item)"),
+    ('C14', 'uid-copy-drops-third-party-sigs', 'pgpy/pgp.py', "        for sig in self._signatures:\n            uid |= copy.copy(sig)\n        return uid", "        for sig in self._signatures:\n            if self.parent is None or sig.signer == self.parent.fingerprint.keyid:\n                uid |= copy.copy(sig)\n        return uid"),
 ]
 
 
